@@ -57,6 +57,14 @@ pub enum Action {
     SpuriousPollRecv,
     /// spurious poll with the very same waker as the previous poll
     RepollSameWaker,
+    /// sender s is dropped by the unwinding of a (caught) panic
+    DropSenderInPanic(usize),
+    /// receive through `Receiver::recv()` futures, each polled once and then dropped
+    RecvFutMany(usize),
+    /// `{:?}` of the channel ends / counter / waker (formatting must not change anything)
+    DebugFormat,
+    /// guard g is dropped by the unwinding of a (caught) panic
+    DropGuardInPanic(usize),
     SenderFromReceiver,
     DropReceiver,
     /// n plain sends in a row through sender s
@@ -158,9 +166,9 @@ impl Engine for ChanSim {
     }
     fn required_probes(prop: &str, _tier: Tier) -> Vec<&'static str> {
         if prop == "C16" {
-            vec!["probe.recv_parked_then_woken_by_send", "probe.end_of_stream_seen", "probe.close_with_parked_receiver", "probe.last_sender_dropped_with_parked_receiver", "probe.recv_streak_over_32", "probe.repoll_same_waker"]
+            vec!["probe.recv_parked_then_woken_by_send", "probe.end_of_stream_seen", "probe.close_with_parked_receiver", "probe.last_sender_dropped_with_parked_receiver", "probe.recv_streak_over_32", "probe.repoll_same_waker", "probe.dropped_by_unwinding", "probe.recv_futures"]
         } else {
-            vec!["probe.release_wakes_refused_task", "probe.refused", "probe.localwaker_wake_fired", "probe.reentrant_wake", "probe.requery_same_waker"]
+            vec!["probe.release_wakes_refused_task", "probe.refused", "probe.localwaker_wake_fired", "probe.reentrant_wake", "probe.requery_same_waker", "probe.dropped_by_unwinding"]
         }
     }
 }
@@ -200,6 +208,9 @@ fn run_channel(cfg: &Config, ch: &mut Chooser<Action>, ctx: &mut RunCtx) -> Opti
             if cfg.w_close > 0 {
                 en.push((Action::Close(s), cfg.w_close));
             }
+            if cfg.w_drop > 1 {
+                en.push((Action::DropSenderInPanic(s), 1));
+            }
             if cfg.burst && s == 0 {
                 en.push((Action::SendMany(0, *[33usize, 40, 100].get(next_val as usize % 3).unwrap()), cfg.w_send));
             }
@@ -207,7 +218,9 @@ fn run_channel(cfg: &Config, ch: &mut Chooser<Action>, ctx: &mut RunCtx) -> Opti
         if rx.is_some() {
             if cfg.burst && (!parked || task.woken()) && queue.len() > 8 {
                 en.push((Action::RecvMany(queue.len() + 1), cfg.w_poll));
+                en.push((Action::RecvFutMany(queue.len() + 1), cfg.w_poll));
             }
+            en.push((Action::DebugFormat, 1));
             if !parked || task.woken() {
                 en.push((Action::PollRecv, cfg.w_poll));
             } else if cfg.spurious > 0 {
@@ -282,9 +295,19 @@ fn run_channel(cfg: &Config, ch: &mut Chooser<Action>, ctx: &mut RunCtx) -> Opti
                 senders.push(c);
                 ev!(ctx, "clone s{s}");
             }
-            Action::DropSender(s) => {
+            Action::DropSender(s) | Action::DropSenderInPanic(s) => {
                 let last = senders.len() == 1;
-                drop(senders.remove(s));
+                let victim = senders.remove(s);
+                if matches!(a, Action::DropSenderInPanic(_)) {
+                    ctx.bump("probe.dropped_by_unwinding");
+                    let r = std::panic::catch_unwind(std::panic::AssertUnwindSafe(move || {
+                        let _held = victim;
+                        std::panic::resume_unwind(Box::new("verif: unwinding with a sender on the stack"));
+                    }));
+                    let _ = r;
+                } else {
+                    drop(victim);
+                }
                 ev!(ctx, "drop s{s} last={last}");
                 if last {
                     must_wake = Some("drop-last-sender");
@@ -297,6 +320,51 @@ fn run_channel(cfg: &Config, ch: &mut Chooser<Action>, ctx: &mut RunCtx) -> Opti
                     must_wake = Some("close");
                 }
                 closed = true;
+            }
+            Action::DebugFormat => {
+                let txt = format!("{:?} {:?}", rx.as_ref().map(|r| format!("{r:?}").len()), senders.iter().map(|s| format!("{s:?}").len()).collect::<Vec<_>>());
+                ev!(ctx, "debug-format ({} chars)", txt.len());
+            }
+            Action::RecvFutMany(n) => {
+                ctx.bump("probe.recv_futures");
+                for _ in 0..n {
+                    let (_flag, w) = task.fresh();
+                    let mut cx = Context::from_waker(&w);
+                    let r = {
+                        let mut f = Box::pin(rx.as_mut().unwrap().recv());
+                        std::future::Future::poll(f.as_mut(), &mut cx)
+                        // the future is dropped here: a cancelled recv() must not take a message along
+                    };
+                    let expect: Poll<Option<u32>> = if let Some(v) = queue.front() {
+                        Poll::Ready(Some(*v))
+                    } else if closed || senders.is_empty() {
+                        Poll::Ready(None)
+                    } else {
+                        Poll::Pending
+                    };
+                    if r != expect {
+                        return Some(Violation::new(
+                            if matches!(r, Poll::Pending) { "pending-with-data" } else { "poll-result" },
+                            format!("recv() polled once returned {r:?}, model expects {expect:?} (queue length {})", queue.len()),
+                        ));
+                    }
+                    match r {
+                        Poll::Ready(Some(_)) => {
+                            queue.pop_front();
+                            received += 1;
+                            parked = false;
+                        }
+                        Poll::Ready(None) => {
+                            parked = false;
+                            break;
+                        }
+                        Poll::Pending => {
+                            parked = true;
+                            pendings += 1;
+                            break;
+                        }
+                    }
+                }
             }
             Action::SenderFromReceiver => {
                 let s = rx.as_ref().unwrap().sender();
@@ -464,6 +532,12 @@ fn run_counter(cfg: &Config, ch: &mut Chooser<Action>, ctx: &mut RunCtx) -> Opti
             }
         }
         en.push((Action::AvailableReentrant, 1));
+        en.push((Action::DebugFormat, 1));
+        for g in 0..guards.len() {
+            if cfg.w_drop > 1 {
+                en.push((Action::DropGuardInPanic(g), 1));
+            }
+        }
         if counters.len() < 3 {
             en.push((Action::CloneCounter, 1));
         }
@@ -473,11 +547,24 @@ fn run_counter(cfg: &Config, ch: &mut Chooser<Action>, ctx: &mut RunCtx) -> Opti
                 guards.push(counters[k].get());
                 ev!(ctx, "acquire via c{k} -> live {}", guards.len());
             }
-            Action::DropGuard(g) => {
+            Action::DebugFormat => {
+                let n: usize = counters.iter().map(|c| format!("{c:?}").len()).sum::<usize>() + guards.iter().map(|g| format!("{g:?}").len()).sum::<usize>();
+                ev!(ctx, "debug-format ({n} chars)");
+            }
+            Action::DropGuard(g) | Action::DropGuardInPanic(g) => {
                 let pre = guards.len();
                 let before = registered.as_ref().map(|(_, f)| f.count());
                 let answers_before = reent.answers.borrow().len();
-                drop(guards.remove(g));
+                let victim = guards.remove(g);
+                if matches!(a, Action::DropGuardInPanic(_)) {
+                    ctx.bump("probe.dropped_by_unwinding");
+                    let _ = std::panic::catch_unwind(std::panic::AssertUnwindSafe(move || {
+                        let _held = victim;
+                        std::panic::resume_unwind(Box::new("verif: unwinding with a guard on the stack"));
+                    }));
+                } else {
+                    drop(victim);
+                }
                 releases += 1;
                 ev!(ctx, "drop guard {g} -> live {}", guards.len());
                 if pre == cap && reent_registered {
@@ -643,6 +730,7 @@ fn run_local_waker(_cfg: &Config, ch: &mut Chooser<Action>, ctx: &mut RunCtx) ->
             (Action::Wake, 3),
             (Action::Take(true), 1),
             (Action::Take(false), 1),
+            (Action::DebugFormat, 1),
         ];
         let Some(a) = ch.choose(&en) else { break };
         match a {
@@ -657,6 +745,10 @@ fn run_local_waker(_cfg: &Config, ch: &mut Chooser<Action>, ctx: &mut RunCtx) ->
                 }
                 model = Some(i);
                 regs += 1;
+            }
+            Action::DebugFormat => {
+                let n = format!("{lw:?}").len();
+                ev!(ctx, "debug-format ({n} chars)");
             }
             Action::Wake => {
                 lw.wake();
